@@ -442,8 +442,8 @@ fn main() {
 	let (s3, n3) = strings_block();
 	h.run.enum_block("Strings/parse [release]", n3, n3, true, serde_json::json!("sma-99999999999999999999"), s3.into_violations());
 	// the ubcheck build of the same grid
-	match std::env::var("VERIF_BIN_UBCHECK") {
-		Err(_) => h.run.machinery_error("VERIF_BIN_UBCHECK not set (run through bin/check)"),
+	match std::env::var("VERIF_BIN_UBCHECK_C10") {
+		Err(_) => h.run.machinery_error("VERIF_BIN_UBCHECK_C10 not set (run through bin/check)"),
 		Ok(bin) => {
 			let out = std::process::Command::new(&bin).arg("worker").arg(if thorough { "thorough" } else { "quick" }).output();
 			match out {
